@@ -193,10 +193,42 @@ func runC09(c *Ctx) {
 			c.und("R09.1", construct, "-", "MarshalJSON of the response type not found")
 		} else {
 			keys := map[string][]*ssa.MapUpdate{}
+			// a member whose name and value come from a helper (member, value := r.outcome()): the helper's
+			// returns say which name goes with which condition
+			type dynRet struct {
+				key string
+				at  *ssa.Return
+			}
+			dynamic := map[*ssa.MapUpdate][]dynRet{}
 			allInstrs(m, func(in ssa.Instruction) {
 				if mu, ok := in.(*ssa.MapUpdate); ok {
 					if s, ok := constString(mu.Key); ok {
 						keys[s] = append(keys[s], mu)
+						return
+					}
+					ex, ok := mu.Key.(*ssa.Extract)
+					if !ok {
+						return
+					}
+					call, ok := ex.Tuple.(*ssa.Call)
+					if !ok {
+						return
+					}
+					h := staticCallee(call)
+					if h == nil || !p.allFns[h] {
+						return
+					}
+					allInstrs(h, func(x ssa.Instruction) {
+						rt, ok := x.(*ssa.Return)
+						if !ok || ex.Index >= len(rt.Results) {
+							return
+						}
+						if k, ok := constString(blockLocalValue(rt.Results[ex.Index])); ok {
+							dynamic[mu] = append(dynamic[mu], dynRet{k, rt})
+						}
+					})
+					for _, dr := range dynamic[mu] {
+						keys[dr.key] = append(keys[dr.key], mu)
 					}
 				}
 			})
@@ -255,13 +287,37 @@ func runC09(c *Ctx) {
 					}
 					return false
 				}
+				// members named by a helper: the condition is judged at the helper's return
+				for mu, rets := range dynamic {
+					for _, dr := range rets {
+						switch dr.key {
+						case "error":
+							if !errNonNil(dr.at.Block(), true) {
+								okAll = false
+								c.bad("R09.1", construct, c.ipos(dr.at), "the error member is chosen on a path where the error is not known to be set")
+							}
+						case "result":
+							if !errNonNil(dr.at.Block(), false) {
+								okAll = false
+								c.bad("R09.1", construct, c.ipos(dr.at), "the result member is chosen although an error may be set: a reply could carry a result next to an error")
+							}
+						}
+					}
+					_ = mu
+				}
 				for _, mu := range keys["error"] {
+					if _, isDyn := dynamic[mu]; isDyn {
+						continue
+					}
 					if !errNonNil(mu.Block(), true) {
 						okAll = false
 						c.bad("R09.1", construct, c.ipos(mu), "the error member is written on a path where the error is not known to be set")
 					}
 				}
 				for _, mu := range keys["result"] {
+					if _, isDyn := dynamic[mu]; isDyn {
+						continue
+					}
 					if !errNonNil(mu.Block(), false) {
 						okAll = false
 						c.bad("R09.1", construct, c.ipos(mu), "the result member is written although an error may be set: a reply could carry both result and error")
@@ -967,12 +1023,34 @@ func (c *Ctx) arityGate(rule string) {
 		}
 		for _, side := range []ssa.Value{bo.X, bo.Y} {
 			if s, ok := lenOf(side); ok {
+				hit := false
 				if ld, ok := s.(*ssa.UnOp); ok && ld.Op == token.MUL {
 					if al, ok := ld.X.(*ssa.Alloc); ok {
 						if _, isDec := dec[al]; isDec {
-							tests = append(tests, iff)
+							hit = true
 						}
 					}
+				}
+				if !hit {
+					// the slice returned by a helper that decoded it (ps, err := parseParamList(raw))
+					hit = c.someOrigin(s, func(a apath) bool {
+						if len(a.Fields) != 0 {
+							return false
+						}
+						root := a.Root
+						if ld, ok := root.(*ssa.UnOp); ok && ld.Op == token.MUL {
+							root = ld.X
+						}
+						al, ok := root.(*ssa.Alloc)
+						if !ok {
+							return false
+						}
+						_, isDec := dec[al]
+						return isDec
+					})
+				}
+				if hit {
+					tests = append(tests, iff)
 				}
 			}
 		}
